@@ -180,6 +180,8 @@ class Case:
         post = " const" if role == "const" else ""
         if role == "ctor":
             return "%s(%s);" % (C, ", ".join(ps))
+        if n.startswith("operator typecast "):
+            return "operator %s ()%s;" % (n[len("operator typecast "):], post)
         return "%s%s %s(%s)%s;" % (pre, self.ty(s["ret"]), n, ", ".join(ps), post)
 
     def doc(self, style, what):
@@ -192,7 +194,10 @@ class Case:
 
     def dbname(self, c, j):
         """name of the function a member stands for in the database"""
-        k = self.cls[c - 1]["members"][j - 1]["k"]
+        m = self.cls[c - 1]["members"][j - 1]
+        if m.get("nm"):
+            return m["nm"]
+        k = m["k"]
         return {"opeq": "operator ==", "opneg": "operator -", "cast": "operator typecast int",
                 "vdtor": "~" + self.cname(c)}.get(k) or self.mname(c, j)
 
